@@ -193,6 +193,25 @@ func (w *World) registerTime() {
 		s, ns := e.durToInt(a[0].(*Term)), e.durToInt(a[1].(*Term))
 		return TimeV{NS: e.tb.IAdd(e.tb.IMul(s, e.tb.Inti(1_000_000_000)), ns)}
 	})
+	w.reg("time.Date", func(e *Exec, fn *ssa.Function, a []Value) Value {
+		var v [7]int
+		for i := 0; i < 7; i++ {
+			t, ok := a[i].(*Term)
+			if !ok {
+				e.ooe("time.Date: unexpected argument")
+			}
+			c, ok := e.concInt(t, niInt)
+			if !ok {
+				e.ooe("time.Date with a symbolic component")
+			}
+			v[i] = int(c)
+		}
+		r := time.Date(v[0], time.Month(v[1]), v[2], v[3], v[4], v[5], v[6], time.UTC)
+		ns := new(big.Int).Mul(big.NewInt(r.Unix()), big.NewInt(1_000_000_000))
+		ns.Add(ns, big.NewInt(int64(r.Nanosecond())))
+		e.stubs["time.Date(constants, loc) evaluated as UTC"] = true
+		return TimeV{NS: e.tb.Int(ns)}
+	})
 	w.reg("time.UnixMilli", func(e *Exec, fn *ssa.Function, a []Value) Value {
 		return TimeV{NS: e.tb.IMul(e.durToInt(a[0].(*Term)), e.tb.Inti(1_000_000))}
 	})
@@ -206,6 +225,33 @@ func (w *World) registerTime() {
 			sec, ns := new(big.Int), new(big.Int)
 			sec.DivMod(t.I, big.NewInt(1_000_000_000), ns)
 			return e.strConst(time.Unix(sec.Int64(), ns.Int64()).UTC().Format(layout))
+		}
+		if comps := numericLayout(layout); comps != nil && e.mode == "lia" {
+			// Fixed-width numeric layout built from "2006", "01", "02", "15" and
+			// separators: a byte vector whose digits are uninterpreted functions of
+			// the day (hour for "15") index of the instant. Congruence only: equal
+			// days/hours give equal text. Years 0001..9999 (4 digits) are assumed.
+			e.stubs["(time.Time).Format of a symbolic instant with a layout built from \"2006\", \"01\", \"02\", \"15\" and separators = digit bytes that are uninterpreted functions of its UTC day (hour for \"15\") index; instants assumed within years 0001..9999"] = true
+			lo := e.tb.Int(zeroTimeNS)
+			hi := e.tb.Int(new(big.Int).Mul(big.NewInt(253402300800), big.NewInt(1_000_000_000)))
+			e.assume(e.tb.And(e.tb.ILe(lo, t), e.tb.ILt(t, hi)))
+			var bs []*Term
+			for _, c := range comps {
+				if c.tok == "" {
+					bs = append(bs, e.byteConst(c.lit))
+					continue
+				}
+				idx := e.floorDiv(t, c.gran)
+				for i := 0; i < len(c.tok); i++ {
+					b := e.tb.UF("timefmt_"+c.tok+"_"+big.NewInt(int64(i)).String(), SInt, idx)
+					if b.Lo == nil {
+						b.Lo, b.Hi = big.NewInt('0'), big.NewInt('9')
+					}
+					e.assumeRange(b)
+					bs = append(bs, b)
+				}
+			}
+			return &StrV{B: bs}
 		}
 		return &StrV{Abs: &absStr{Kind: "timefmt", Layout: layout, T: t}}
 	})
@@ -236,6 +282,44 @@ func (w *World) registerTime() {
 	w.reg("time.LoadLocation", func(e *Exec, fn *ssa.Function, a []Value) Value {
 		return TupleV{Ptr{}, e.zero(types.Universe.Lookup("error").Type())}
 	})
+}
+
+type layoutComp struct {
+	tok  string // "2006" | "01" | "02" | "15", or "" for a literal byte
+	lit  byte
+	gran int64
+}
+
+// numericLayout splits a layout made only of the fixed-width numeric components used
+// for partition paths ("2006", "01", "02", "15") and non-alphanumeric separators;
+// nil for any other layout.
+func numericLayout(layout string) []layoutComp {
+	const day, hour = 86400_000_000_000, 3600_000_000_000
+	var out []layoutComp
+	for i := 0; i < len(layout); {
+		switch {
+		case len(layout)-i >= 4 && layout[i:i+4] == "2006":
+			out = append(out, layoutComp{tok: "2006", gran: day})
+			i += 4
+		case len(layout)-i >= 2 && (layout[i:i+2] == "01" || layout[i:i+2] == "02"):
+			out = append(out, layoutComp{tok: layout[i : i+2], gran: day})
+			i += 2
+		case len(layout)-i >= 2 && layout[i:i+2] == "15":
+			out = append(out, layoutComp{tok: "15", gran: hour})
+			i += 2
+		default:
+			c := layout[i]
+			if c >= '0' && c <= '9' || c >= 'a' && c <= 'z' || c >= 'A' && c <= 'Z' || c == '_' || c == '.' || c == ',' {
+				return nil
+			}
+			out = append(out, layoutComp{lit: c})
+			i++
+		}
+	}
+	if len(out) == 0 {
+		return nil
+	}
+	return out
 }
 
 // layoutGranularity: the time unit (ns) a layout preserves; 0 = unknown.
